@@ -565,4 +565,79 @@ theorem input_loop_runs (s : Setup) (hwf : s.WF) (u0 u1 : Nat) (h01 : u0 < u1) (
     have e : finalVals s.input um al = stepVals last (finalVals pre um al).1 (finalVals pre um al).2 := by rw [hsplit, finsplit]
     rw [e]; exact hF2
 
+
+/-! ### which flows of the generated program start on an event -/
+
+theorem startOne_sub (cfgs : Cfgs) (ev : Event) (ns : State) (cfg : FlowCfg) (h : cfg.isSubflow = true) : startOne true cfgs ev ns cfg = .ok ns := by
+  simp [startOne, h]
+
+/-- a flow whose first element waits (does not slide) and does not match the event does not start -/
+theorem startOne_nomatch (cfgs : Cfgs) (ev : Event) (ns : State) (cfg : FlowCfg) (el : Elem) (rest : List Elem)
+    (he : cfg.elems = el :: rest) (hs : sstep (el :: rest) ⟨ns.ctx, ns.upd⟩ 0 = .stop) (hm : isMatch el ev = false) :
+    startOne true cfgs ev ns cfg = .ok ns := by
+  unfold startOne
+  split
+  · rfl
+  · split
+    · rfl
+    · have h0 : ¬ ((0 : Int) = (rest.length : Int) + 1) := by omega
+      simp [he, SLIDE_FUEL, slide, hs, pyIndex, hm, h0]
+
+theorem startNew_base_eq (cfgs : Cfgs) (ev : Event) (ns : State) :
+    startNew true cfgs ev base ns =
+      (match startOne true cfgs ev ns puiCfg with
+       | .error e => .error e
+       | .ok ns => match startOne true cfgs ev ns rdrCfg with
+         | .error e => .error e
+         | .ok ns => match startOne true cfgs ev ns gnsCfg with
+           | .error e => .error e
+           | .ok ns => match startOne true cfgs ev ns gbmCfg with
+             | .error e => .error e
+             | .ok ns => startOne true cfgs ev ns pbmCfg) := by
+  rw [base_eq]
+  simp only [startNew]
+  cases startOne true cfgs ev ns puiCfg with
+  | error e => rfl
+  | ok ns1 =>
+    simp only []
+    cases startOne true cfgs ev ns1 rdrCfg with
+    | error e => rfl
+    | ok ns2 =>
+      simp only [startOne_sub _ _ _ guiCfg gui_flags.2.2.2.1, startOne_sub _ _ _ rirCfg rir_flags.2.2.2.1]
+      cases startOne true cfgs ev ns2 gnsCfg with
+      | error e => rfl
+      | ok ns3 =>
+        simp only []
+        cases startOne true cfgs ev ns3 gbmCfg with
+        | error e => rfl
+        | ok ns4 =>
+          simp only [startOne_sub _ _ _ rorCfg ror_flags.2.2.2.1, startOne_sub _ _ _ rrrCfg rrr_flags.1]
+          cases startOne true cfgs ev ns4 pbmCfg <;> rfl
+
+theorem startNew_rails (rails : Cfgs) (hsub : ∀ r ∈ rails, r.isSubflow = true) (ev : Event) (ns : State) :
+    startNew true (base ++ rails) ev (base ++ rails) ns =
+      (match startNew true (base ++ rails) ev base ns with | .ok ns' => .ok ns' | .error e => .error e) := by
+  rw [startNew_append]
+  cases startNew true (base ++ rails) ev base ns with
+  | error e => rfl
+  | ok ns' => exact startNew_subflows _ ev rails ns' hsub
+
+
+def el0pui : Elem := Elem.event "UtteranceUserActionFinished" [("final_transcript", (V.str "..."))]
+def el0rdr : Elem := Elem.event "UserMessage" [("text", (V.str "..."))]
+def el0gns : Elem := Elem.userIntent "..."
+def el0gbm : Elem := Elem.runAction "utter" (some "...") "" none
+def el0pbm : Elem := Elem.event "BotMessage" []
+
+theorem startOne_pui_no (cfgs : Cfgs) (ev : Event) (ns : State) (h : isMatch el0pui ev = false) : startOne true cfgs ev ns puiCfg = .ok ns :=
+  startOne_nomatch cfgs ev ns puiCfg _ _ pui_elems rfl h
+theorem startOne_rdr_no (cfgs : Cfgs) (ev : Event) (ns : State) (h : isMatch el0rdr ev = false) : startOne true cfgs ev ns rdrCfg = .ok ns :=
+  startOne_nomatch cfgs ev ns rdrCfg _ _ rdr_elems rfl h
+theorem startOne_gns_no (cfgs : Cfgs) (ev : Event) (ns : State) (h : isMatch el0gns ev = false) : startOne true cfgs ev ns gnsCfg = .ok ns :=
+  startOne_nomatch cfgs ev ns gnsCfg _ _ gns_elems rfl h
+theorem startOne_gbm_no (cfgs : Cfgs) (ev : Event) (ns : State) (h : isMatch el0gbm ev = false) : startOne true cfgs ev ns gbmCfg = .ok ns :=
+  startOne_nomatch cfgs ev ns gbmCfg _ _ gbm_elems rfl h
+theorem startOne_pbm_no (cfgs : Cfgs) (ev : Event) (ns : State) (h : isMatch el0pbm ev = false) : startOne true cfgs ev ns pbmCfg = .ok ns :=
+  startOne_nomatch cfgs ev ns pbmCfg _ _ pbm_elems rfl h
+
 end NemoVerif.RailsInterp
